@@ -76,12 +76,22 @@ CLAIMED = {
         design="6/C02"),
     "C16": dict(
         category="proof",
-        text="Lean theorem decided in the kernel over the parse-error sites extracted from the AST of the tokenizer, parser and "
-             "input stream on every run: every site's literal code has a message template in E and supplies every variable "
-             "the template mentions (so strict mode can only raise ParseError); exactly two forwarding sites exist. "
-             "The strict-iff-lenient, first-error and position clauses are decided by search on the real code (partial).",
-        note="Lean kernel; standard axioms; site extraction by tools/extract.py; %-formatting semantics assumed.",
-        technique="Lean 4 proof over extracted error-site table + strict/lenient differential on the real code",
+        text="Lean theorems over the whole parser model (tokenizer model + tree-construction model with the strict flag: every "
+             "parse-error primitive records the error and then raises ParseError when strict, as HTMLParser.parseError does), "
+             "for EVERY configuration, input and fragment container, with L the lenient and S the strict run: "
+             "C16_strict_ok (L ends with no recorded error -> S returns the same tree), C16_strict_raises (L records e first -> "
+             "S raises ParseError(e)), C16_strict_iff_ok (S raises ParseError iff L's error list is non-empty), "
+             "C16_lenient_never_parseError, C16_strict_of_lenient_exception, C16_strict_cases. Proved by a simulation: every one "
+             "of the 237 handlers, the dispatcher, the reprocess and token loops reach the flag and the error list only through "
+             "the parse-error primitives (class Ob, instantiated by generated lemma files), and the tokenizer never raises "
+             "ParseError. Also decided in the kernel over the parse-error sites extracted from the AST on every run: every "
+             "site's literal code has a message template in E and supplies every variable the template mentions (so strict "
+             "mode can only raise ParseError); exactly two forwarding sites exist. The model is tied by the strict-mode "
+             "correspondence op parsex (real HTMLParser(strict=True/False) vs model: tree, codes, code raised). Positions "
+             "(line, column) are not modelled: the position clause and 'conforming documents record no errors' are decided by "
+             "search on the real code.",
+        note="Lean kernel; standard axioms; hand model tied by correspondence; positions not modelled; %-formatting semantics assumed.",
+        technique="Lean 4 simulation proof (strict vs lenient run of the parser model) + extracted error-site table + strict/lenient correspondence on the real code",
         design="6/C16"),
     "C11": dict(
         category="proof",
@@ -155,14 +165,21 @@ CLAIMED = {
     "C03": dict(
         category="translation_validation",
         text="Totality is decided on the real code: soup / injected token lists / exhaustive short tag sequences, random "
-             "bytes, EOF at every offset, depth series up to 5000 (50000 thorough) for 30 nestable tag classes under "
-             "Python's default recursion limit, both builders, every container; oracle = no exception, finishes within a "
-             "time limit, document skeleton. The Lean tree-builder and tokenizer models make every Python exception "
-             "source and every loop's fuel explicit and reproduce the class and site of every exception the real parser "
-             "raised (this is how the non-termination, assertion, AttributeError and RecursionError defects fixed in "
-             "/repo were found). The invariant proof that no exception site is reachable is not done.",
-        note="search on the real code + model with explicit exception sites; CPython recursion limit observed.",
-        technique="differential correspondence with explicit-exception Lean model + totality search on the real code",
+             "bytes, EOF at every offset, a skeleton-stress family (structural end tag x open context x tail), depth series up "
+             "to 5000 (10000 thorough, etree) for 30 nestable tag classes under Python's default recursion limit, both builders, "
+             "every container; oracle = no exception, finishes within a CPU-time limit that grows quadratically with depth, "
+             "document skeleton. The Lean tree-builder and tokenizer models make every Python exception source and every "
+             "loop's fuel explicit and reproduce the class and site of every exception the real parser raised (this is how the "
+             "non-termination, assertion, AttributeError and RecursionError defects fixed in /repo were found). Proved on the "
+             "model (C02c, C03b; ~700 theorems): the tokenizer never runs out of fuel and from the entry states raises nothing "
+             "but one recorded ValueError site; every helper loop of the tree builder has enough fuel in every state; nested "
+             "phase re-dispatch is at most 6 deep for all phases and tokens (sharp); the EOF loop and the token loop terminate; "
+             "C03_total_fuel_partial: Parser.parse never runs out of fuel except possibly in the reprocess loop and Dom.toTree. "
+             "reprocess_not_total: from five states the reprocess loop does spin forever (replayed on the real mainLoop); no "
+             "such state was reached by 200 000 targeted parses — reachability is not proved, and absence of the other "
+             "exception kinds in the tree builder is not proved (search only).",
+        note="search on the real code + model with explicit exception sites; termination theorems on the model are partial (reprocess loop).",
+        technique="differential correspondence with explicit-exception Lean model + Lean 4 termination theorems on the model + totality search on the real code",
         design="6/C03"),
     "C04": dict(
         category="proof",
@@ -251,16 +268,20 @@ CLAIMED = {
         design="6/C10"),
     "C09": dict(
         category="proof",
-        text="62 Lean theorems over a hand model of the sanitizer with ALL allow-lists as parameters (defaults extracted each "
+        text="84 Lean theorems over a hand model of the sanitizer with ALL allow-lists as parameters (defaults extracted each "
              "run) and every regular expression translated from Python's own parse into a Lean regex AST run by a small "
-             "backtracking engine with sre semantics (engine soundness proved against a declarative semantics): for every "
+             "backtracking engine with sre semantics (engine soundness AND completeness proved against declarative semantics; "
+             "IGNORECASE translated by evaluating Python's compiled one-character items): for every "
              "token list and every list configuration the output has only allow-listed elements and attributes and no "
              "comments; a disallowed tag becomes exactly one Characters token starting with '<'; a kept URI attribute has no "
              "scheme or an allowed one AS A BROWSER RESOLVES IT (key lemma: browserScheme v = some s forces urlsplit(clean v) "
              "to yield s; CPython 3.12 urlsplit modelled incl. its ValueError branches); emitted CSS declarations have allowed "
-             "properties; every '(' in sanitize_css output is followed only by digits/commas/white space up to ')'. The "
-             "literal 'never url()' clause and the browser-side reading of data: content types are false on the pinned tree "
-             "(witness theorems + recorded findings). Model, regex engine, urlsplit and str.lower tables are tied by ops "
+             "properties; every '(' in sanitize_css output is followed only by digits/commas/white space up to ')'; since the "
+             "library fixes of the url remover and of the svg_allow_local_href test: no suffix of a sanitize_css result starts with "
+             "[uU][rR][lL], Python-\\s characters, '(' (C09_css_no_url) and a kept xlink:href of an svg_allow_local_href element is a "
+             "local reference in exactly the sense of the code's regular expression (C09_svg_local_href, _exact); the former "
+             "witnesses are regression examples. The browser-side reading of data: content types is false on the pinned tree "
+             "(witness theorem + recorded findings). Model, regex engine, urlsplit and str.lower tables are tied by ops "
              "san, san:css, san:scheme, re:* (exhaustive short strings per pattern) on ~250k cases per quick run.",
         note="Lean kernel; standard axioms; Python re / urllib.parse / str.lower modelled and validated by correspondence.",
         technique="Lean 4 proof over parametric sanitizer model + translated regexes; differential correspondence; oracle",
